@@ -1,1 +1,774 @@
-fn main() {}
+//! geomon - runtime monitor for the geometry helpers (C10): every reported intersection point lies on
+//! both primitives (1e-7), and the reported kind agrees with exact geometry wherever the configuration is
+//! not within the library's 1e-9 tolerance of a boundary between kinds (guard band: asserted only for
+//! margin exactly 0, |margin| <= 1e-10, or |margin| >= 1e-8; in between the case is "gray" and only the
+//! point residuals are checked).
+//!
+//! modes: lattice  integer configurations (classification decided exactly in i128, exact tangencies through
+//!                 Pythagorean normals / offsets)
+//!        real     random real-valued configurations, constructed tangencies, margin sweeps at every boundary
+//! replay: --mode <m> --case <case_seed>
+
+use common::{catch, lib, mix, Engine, Json, Report, Rng, WorkQueue};
+use rlib_geometry::circle::{Circle, PointPosition};
+use rlib_geometry::line::Line;
+use rlib_geometry::point::Point;
+use rlib_geometry::util::{intersect_cc, intersect_cl, intersect_ll, CircleIntersection, CircleLineIntersection};
+
+const ON: f64 = 1e-7; // a returned point must be this close to each primitive
+const TAN: f64 = 1e-10; // |margin| <= TAN: tangent kind asserted
+const CLEAR: f64 = 1e-8; // |margin| >= CLEAR: non-tangent kind asserted
+
+#[derive(Clone, Copy, Debug)]
+struct P2 {
+    x: f64,
+    y: f64,
+}
+
+/// a line given the way the caller gives it: two defining points or three coefficients
+#[derive(Clone, Copy, Debug)]
+enum LineDef {
+    Points(P2, P2),
+    Coef(f64, f64, f64),
+}
+
+impl LineDef {
+    fn build(&self) -> Line {
+        match *self {
+            LineDef::Points(p, q) => lib!(Line::between(&Point::new(p.x, p.y), &Point::new(q.x, q.y))),
+            LineDef::Coef(a, b, c) => lib!(Line::new(a, b, c)),
+        }
+    }
+    /// signed distance of a point from the line, computed from the definition (never from the library's
+    /// normalised coefficients)
+    fn sdist(&self, p: P2) -> f64 {
+        match *self {
+            LineDef::Points(u, v) => {
+                let (dx, dy) = (v.x - u.x, v.y - u.y);
+                (dx * (p.y - u.y) - dy * (p.x - u.x)) / dx.hypot(dy)
+            }
+            LineDef::Coef(a, b, c) => (a * p.x + b * p.y + c) / a.hypot(b),
+        }
+    }
+    fn dir(&self) -> P2 {
+        match *self {
+            LineDef::Points(u, v) => P2 { x: v.x - u.x, y: v.y - u.y },
+            LineDef::Coef(a, b, _) => P2 { x: -b, y: a },
+        }
+    }
+}
+
+#[derive(Clone, Copy, Debug, PartialEq)]
+enum Want {
+    Gray,
+    NoPoint,
+    Tangent,
+    TangentIn,
+    TangentOut,
+    Two,
+    Same,
+}
+
+fn class3(margin: f64, exact_zero: bool) -> i32 {
+    // -1 clearly negative, 0 tangent, +1 clearly positive, 9 gray
+    if exact_zero || margin.abs() <= TAN {
+        0
+    } else if margin >= CLEAR {
+        1
+    } else if margin <= -CLEAR {
+        -1
+    } else {
+        9
+    }
+}
+
+struct Cx<'a> {
+    rep: &'a mut Report,
+    replay: Vec<String>,
+    verbose: bool,
+    family: String,
+}
+
+impl Cx<'_> {
+    fn violation(&mut self, sig: &str, d: Json) {
+        let d = d.set("family", self.family.as_str());
+        self.rep.violation(sig.to_string(), d, self.replay.clone());
+    }
+}
+
+fn pj(p: P2) -> Json {
+    Json::Arr(vec![Json::Float(p.x), Json::Float(p.y)])
+}
+
+fn pp(p: &Point) -> P2 {
+    P2 { x: p.x, y: p.y }
+}
+
+// ------------------------------------------------------------------------------------------------
+// circle - line
+
+fn judge_cl(cx: &mut Cx, c: P2, r: f64, ld: LineDef, margin: f64, exact_zero: bool) {
+    // margin = dist(centre, line) - r
+    cx.rep.inc("evaluations");
+    cx.rep.inc("circle_line_cases");
+    let want = match class3(margin, exact_zero) {
+        0 => Want::Tangent,
+        1 => Want::NoPoint,
+        -1 => Want::Two,
+        _ => Want::Gray,
+    };
+    cx.rep.inc(&format!("cl_want_{:?}", want));
+    let circle = lib!(Circle::new(Point::new(c.x, c.y), r));
+    let line = ld.build();
+    let got = lib!(intersect_cl(&circle, &line));
+    let (kind, pts): (Want, Vec<P2>) = match &got {
+        CircleLineIntersection::None => (Want::NoPoint, vec![]),
+        CircleLineIntersection::Touch(p) => (Want::Tangent, vec![pp(p)]),
+        CircleLineIntersection::Intersect(p, q) => (Want::Two, vec![pp(p), pp(q)]),
+    };
+    // IntoIterator yields the same points
+    let it: Vec<P2> = got.into_iter().map(|p| pp(&p)).collect();
+    if it.len() != pts.len() {
+        cx.violation("cl_into_iter", Json::obj().set("what", "IntoIterator of CircleLineIntersection yields a different number of points"));
+    }
+    let detail = |what: &str| {
+        Json::obj()
+            .set("what", what)
+            .set("centre", pj(c))
+            .set("r", r)
+            .set("line", format!("{:?}", ld))
+            .set("margin_dist_minus_r", margin)
+            .set("exactly_tangent", exact_zero)
+            .set("got_kind", format!("{:?}", kind))
+            .set("got_points", Json::Arr(pts.iter().map(|p| pj(*p)).collect()))
+    };
+    for p in &pts {
+        cx.rep.inc("points_checked");
+        let rc = ((p.x - c.x).hypot(p.y - c.y) - r).abs();
+        let rl = ld.sdist(*p).abs();
+        cx.rep.max("worst_point_residual_x1e12", ((rc.max(rl)) * 1e12).min(9e18) as i64);
+        if !(rc <= ON) || !(rl <= ON) {
+            let sig = if kind == Want::Tangent { "cl_touch_point_off_objects" } else { "cl_point_off_objects" };
+            let d = detail("a reported circle-line intersection point does not lie on both the circle and the line")
+                .set("residual_on_circle", rc)
+                .set("residual_on_line", rl);
+            cx.violation(sig, d);
+            break;
+        }
+    }
+    if want != Want::Gray && kind != want {
+        let sig = format!("cl_kind:want_{:?}_got_{:?}", want, kind).to_lowercase();
+        cx.violation(&sig, detail("the reported kind of circle-line contact disagrees with exact geometry outside the tolerance band").set("want_kind", format!("{:?}", want)));
+    }
+    if kind == Want::Two && pts.len() == 2 && want == Want::Two {
+        // two distinct points (they are 2*sqrt(r^2-d^2) apart)
+        let dd = (pts[0].x - pts[1].x).hypot(pts[0].y - pts[1].y);
+        let d0 = margin + r;
+        let chord = 2.0 * (r * r - d0 * d0).max(0.0).sqrt();
+        if (dd - chord).abs() > 1e-6 * (1.0 + chord) {
+            cx.violation("cl_chord_length", detail("the two reported points are not a chord of the right length").set("got_chord", dd).set("want_chord", chord));
+        }
+    }
+    // Line::contains / Circle::position on the reported points and on the centre
+    if cx.verbose {
+        eprintln!("  circle-line margin {:e} want {:?} got {:?} {:?}", margin, want, kind, pts);
+    }
+}
+
+// ------------------------------------------------------------------------------------------------
+// circle - circle
+
+#[allow(clippy::too_many_arguments)]
+fn judge_cc(cx: &mut Cx, c1: P2, r1: f64, c2: P2, r2: f64, m_out: f64, m_in: f64, z_out: bool, z_in: bool, identical: bool, near_identical: bool) {
+    // m_out = d - (r1 + r2), m_in = d - |r1 - r2|
+    cx.rep.inc("evaluations");
+    cx.rep.inc("circle_circle_cases");
+    let want = if identical {
+        Want::Same
+    } else if near_identical {
+        Want::Gray
+    } else {
+        let co = class3(m_out, z_out);
+        let ci = class3(m_in, z_in);
+        if co == 0 {
+            Want::TangentOut
+        } else if ci == 0 {
+            Want::TangentIn
+        } else if co == 1 || ci == -1 {
+            Want::NoPoint
+        } else if co == -1 && ci == 1 {
+            Want::Two
+        } else {
+            Want::Gray
+        }
+    };
+    cx.rep.inc(&format!("cc_want_{:?}", want));
+    let a = lib!(Circle::new(Point::new(c1.x, c1.y), r1));
+    let b = lib!(Circle::new(Point::new(c2.x, c2.y), r2));
+    for order in 0..2 {
+        let got = if order == 0 { lib!(intersect_cc(&a, &b)) } else { lib!(intersect_cc(&b, &a)) };
+        let (kind, pts): (Want, Vec<P2>) = match &got {
+            CircleIntersection::None => (Want::NoPoint, vec![]),
+            CircleIntersection::Same => (Want::Same, vec![]),
+            CircleIntersection::TouchInside(p) => (Want::TangentIn, vec![pp(p)]),
+            CircleIntersection::TouchOutside(p) => (Want::TangentOut, vec![pp(p)]),
+            CircleIntersection::Intersect(p, q) => (Want::Two, vec![pp(p), pp(q)]),
+        };
+        let it: Vec<P2> = got.into_iter().map(|p| pp(&p)).collect();
+        if it.len() != pts.len() {
+            cx.violation("cc_into_iter", Json::obj().set("what", "IntoIterator of CircleIntersection yields a different number of points"));
+        }
+        let detail = |what: &str| {
+            Json::obj()
+                .set("what", what)
+                .set("c1", pj(c1))
+                .set("r1", r1)
+                .set("c2", pj(c2))
+                .set("r2", r2)
+                .set("argument_order", if order == 0 { "(1,2)" } else { "(2,1)" })
+                .set("margin_d_minus_sum", m_out)
+                .set("margin_d_minus_absdiff", m_in)
+                .set("got_kind", format!("{:?}", kind))
+                .set("got_points", Json::Arr(pts.iter().map(|p| pj(*p)).collect()))
+        };
+        for p in &pts {
+            cx.rep.inc("points_checked");
+            let ra = ((p.x - c1.x).hypot(p.y - c1.y) - r1).abs();
+            let rb = ((p.x - c2.x).hypot(p.y - c2.y) - r2).abs();
+            cx.rep.max("worst_point_residual_x1e12", ((ra.max(rb)) * 1e12).min(9e18) as i64);
+            if !(ra <= ON) || !(rb <= ON) {
+                let d = detail("a reported circle-circle intersection point does not lie on both circles").set("residual_on_circle_1", ra).set("residual_on_circle_2", rb);
+                cx.violation("cc_point_off_objects", d);
+                break;
+            }
+        }
+        if want != Want::Gray && kind != want {
+            let sig = format!("cc_kind:want_{:?}_got_{:?}", want, kind).to_lowercase();
+            cx.violation(&sig, detail("the reported kind of circle-circle contact disagrees with exact geometry outside the tolerance band").set("want_kind", format!("{:?}", want)));
+        }
+        if cx.verbose {
+            eprintln!("  circle-circle m_out {:e} m_in {:e} want {:?} got {:?} {:?}", m_out, m_in, want, kind, pts);
+        }
+    }
+}
+
+// ------------------------------------------------------------------------------------------------
+// line - line
+
+fn judge_ll(cx: &mut Cx, l1: LineDef, l2: LineDef, parallel: Option<bool>, inside_box: bool) {
+    // parallel: Some(true) exactly parallel, Some(false) clearly not parallel, None gray
+    cx.rep.inc("evaluations");
+    cx.rep.inc("line_line_cases");
+    let a = l1.build();
+    let b = l2.build();
+    let got = lib!(intersect_ll(&a, &b));
+    let detail = |what: &str| Json::obj().set("what", what).set("line1", format!("{:?}", l1)).set("line2", format!("{:?}", l2)).set("got", format!("{:?}", got));
+    match parallel {
+        Some(true) => {
+            cx.rep.inc("ll_parallel");
+            if got.is_some() {
+                cx.violation("ll_kind:parallel_lines_intersect", detail("parallel lines are reported to intersect"));
+            }
+        }
+        Some(false) => {
+            cx.rep.inc("ll_crossing");
+            match got {
+                None => cx.violation("ll_kind:crossing_lines_do_not_intersect", detail("clearly non-parallel lines are reported not to intersect")),
+                Some(p) => {
+                    if inside_box {
+                        cx.rep.inc("points_checked");
+                        let p = pp(&p);
+                        let (d1, d2) = (l1.sdist(p).abs(), l2.sdist(p).abs());
+                        cx.rep.max("worst_point_residual_x1e12", ((d1.max(d2)) * 1e12).min(9e18) as i64);
+                        if !(d1 <= ON) || !(d2 <= ON) {
+                            cx.violation("ll_point_off_objects", detail("the reported line-line intersection point does not lie on both lines").set("residual_on_line_1", d1).set("residual_on_line_2", d2));
+                        }
+                    }
+                }
+            }
+        }
+        None => {
+            cx.rep.inc("ll_gray");
+        }
+    }
+}
+
+// ------------------------------------------------------------------------------------------------
+// point classification: Circle::position and Line::contains
+
+fn judge_position(cx: &mut Cx, c: P2, r: f64, p: P2, margin: f64, exact_zero: bool) {
+    // margin = dist(p, centre) - r. The library applies its 1e-9 relative to the radius; "the same tolerance" can be
+    // read as absolute or relative, so a class is asserted only where both readings agree.
+    cx.rep.inc("evaluations");
+    cx.rep.inc("position_cases");
+    let want = if exact_zero || margin.abs() <= TAN.min(TAN * r) {
+        Some(PointPosition::Border)
+    } else if margin >= CLEAR.max(CLEAR * r) {
+        Some(PointPosition::Outside)
+    } else if margin <= -(CLEAR.max(CLEAR * r)) {
+        Some(PointPosition::Inside)
+    } else {
+        None
+    };
+    let circle = lib!(Circle::new(Point::new(c.x, c.y), r));
+    let got = lib!(circle.position(&Point::new(p.x, p.y)));
+    match want {
+        None => cx.rep.inc("position_gray"),
+        Some(w) => {
+            cx.rep.inc(&format!("position_want_{:?}", w));
+            if got != w {
+                let sig = format!("position:want_{:?}_got_{:?}", w, got).to_lowercase();
+                cx.violation(&sig, Json::obj().set("what", "Circle::position disagrees with exact geometry outside the tolerance band").set("centre", pj(c)).set("r", r).set("point", pj(p)).set("margin_dist_minus_r", margin));
+            }
+        }
+    }
+}
+
+fn judge_contains(cx: &mut Cx, ld: LineDef, p: P2, dist: f64, exact_zero: bool) {
+    cx.rep.inc("evaluations");
+    cx.rep.inc("contains_cases");
+    let want = if exact_zero || dist.abs() <= TAN {
+        Some(true)
+    } else if dist.abs() >= CLEAR {
+        Some(false)
+    } else {
+        None
+    };
+    let line = ld.build();
+    let got = lib!(line.contains(&Point::new(p.x, p.y)));
+    // Line::dist must be the Euclidean distance whatever scale the coefficients were given in
+    let ld_dist = lib!(line.dist(&Point::new(p.x, p.y)));
+    if (ld_dist - dist.abs()).abs() > 1e-7 {
+        cx.violation("line_dist", Json::obj().set("what", "Line::dist is not the Euclidean point-line distance").set("line", format!("{:?}", ld)).set("point", pj(p)).set("got", ld_dist).set("want", dist.abs()));
+    }
+    match want {
+        None => cx.rep.inc("contains_gray"),
+        Some(w) => {
+            cx.rep.inc(&format!("contains_want_{}", w));
+            if got != w {
+                let sig = format!("contains:want_{}_got_{}", w, got);
+                cx.violation(&sig, Json::obj().set("what", "Line::contains disagrees with exact geometry outside the tolerance band").set("line", format!("{:?}", ld)).set("point", pj(p)).set("distance", dist));
+            }
+        }
+    }
+}
+
+// ------------------------------------------------------------------------------------------------
+// lattice configurations (exact classification in i128)
+
+const TRIPLES: [(i64, i64, i64); 10] = [(3, 4, 5), (4, 3, 5), (5, 12, 13), (12, 5, 13), (8, 15, 17), (15, 8, 17), (7, 24, 25), (24, 7, 25), (20, 21, 29), (21, 20, 29)];
+
+fn f(p: (i64, i64)) -> P2 {
+    P2 { x: p.0 as f64, y: p.1 as f64 }
+}
+
+/// exact margin dist - r for integer circle (x0,y0,r) and integer line a x + b y + c = 0
+fn lattice_cl_margin(x0: i64, y0: i64, r: i64, a: i64, b: i64, c: i64) -> (f64, bool) {
+    let n = (a as i128 * x0 as i128 + b as i128 * y0 as i128 + c as i128).abs();
+    let l2 = a as i128 * a as i128 + b as i128 * b as i128;
+    let num = n * n - r as i128 * r as i128 * l2; // sign of d - r
+    if num == 0 {
+        return (0.0, true);
+    }
+    let l = (l2 as f64).sqrt();
+    // d - r = (n - r l)/l = num / ((n + r l) l)
+    let m = num as f64 / ((n as f64 + r as f64 * l) * l);
+    (m, false)
+}
+
+fn lattice_line(rng: &mut Rng, p: (i64, i64), q: (i64, i64)) -> (LineDef, i64, i64, i64) {
+    let a = p.1 - q.1;
+    let b = q.0 - p.0;
+    let c = -(a * p.0 + b * p.1);
+    let def = match rng.below(3) {
+        0 => LineDef::Points(f(p), f(q)),
+        1 => LineDef::Points(f(q), f(p)),
+        _ => {
+            let k = *rng.pick(&[1i64, -1, 2, 7, -3]);
+            LineDef::Coef((a * k) as f64, (b * k) as f64, (c * k) as f64)
+        }
+    };
+    (def, a, b, c)
+}
+
+fn run_lattice_case(case_seed: u64, rep: &mut Report, verbose: bool) {
+    let mut rng = Rng::new(case_seed);
+    let replay = vec!["--mode".into(), "lattice".into(), "--case".into(), format!("{}", case_seed)];
+    let mut cx = Cx { rep, replay, verbose, family: String::new() };
+    cx.rep.see("nontrivial", case_seed);
+    let rr = *rng.pick(&[5i64, 20, 100, 400]);
+    let pt = |rng: &mut Rng| (rng.range_i64(-rr, rr), rng.range_i64(-rr, rr));
+    let res = catch(|| {
+        match rng.below(10) {
+            0 | 1 => {
+                cx.family = "lattice: random circle and line".into();
+                let (x0, y0) = pt(&mut rng);
+                let r = rng.range_i64(1, rr);
+                let p = pt(&mut rng);
+                let mut q = pt(&mut rng);
+                if q == p {
+                    q.0 += 1;
+                }
+                let (def, a, b, c) = lattice_line(&mut rng, p, q);
+                let (m, z) = lattice_cl_margin(x0, y0, r, a, b, c);
+                judge_cl(&mut cx, f((x0, y0)), r as f64, def, m, z);
+            }
+            2 | 3 => {
+                cx.family = "lattice: exact circle-line tangency (Pythagorean normal or axis-parallel)".into();
+                let (x0, y0) = pt(&mut rng);
+                let r = rng.range_i64(1, rr);
+                let (pn, qn, h) = if rng.chance(1, 4) { *rng.pick(&[(1i64, 0i64, 1i64), (0, 1, 1)]) } else { *rng.pick(&TRIPLES) };
+                let sgn = if rng.chance(1, 2) { 1 } else { -1 };
+                let (pn, qn) = if rng.chance(1, 2) { (pn, qn) } else { (-pn, qn) };
+                let c = -(pn * x0 + qn * y0) + sgn * r * h;
+                // also near misses: shift c by k to leave tangency by k/h
+                let k = *rng.pick(&[0i64, 0, 0, 1, -1]);
+                let c = c + k;
+                // the line through two lattice points, when they exist close by
+                let mut def = LineDef::Coef(pn as f64, qn as f64, c as f64);
+                if rng.chance(1, 2) {
+                    // find integer points on p x + q y + c = 0
+                    'outer: for x in x0 - 40..=x0 + 40 {
+                        let rest = -c - pn * x;
+                        if qn != 0 && rest % qn == 0 {
+                            let y = rest / qn;
+                            let p1 = (x, y);
+                            let t = *rng.pick(&[1i64, -1, 2, 3]);
+                            let p2 = (x + qn * t, y - pn * t);
+                            def = LineDef::Points(f(p1), f(p2));
+                            break 'outer;
+                        } else if qn == 0 && pn != 0 && (-c) % pn == 0 {
+                            let xx = -c / pn;
+                            def = LineDef::Points(f((xx, y0 - 3)), f((xx, y0 + 4)));
+                            break 'outer;
+                        }
+                    }
+                }
+                let (m, z) = lattice_cl_margin(x0, y0, r, pn, qn, c);
+                if z {
+                    cx.rep.inc("exact_tangencies");
+                }
+                judge_cl(&mut cx, f((x0, y0)), r as f64, def, m, z);
+            }
+            4 | 5 => {
+                cx.family = "lattice: random circle pair".into();
+                let c1 = pt(&mut rng);
+                let mut c2 = pt(&mut rng);
+                if rng.chance(1, 12) {
+                    c2 = c1;
+                }
+                let r1 = rng.range_i64(1, rr);
+                let r2 = if rng.chance(1, 8) { r1 } else { rng.range_i64(1, rr) };
+                lattice_cc(&mut cx, c1, r1, c2, r2);
+            }
+            6 | 7 => {
+                cx.family = "lattice: exact circle-circle tangency (Pythagorean offset)".into();
+                let c1 = pt(&mut rng);
+                let (pn, qn, h) = if rng.chance(1, 4) { *rng.pick(&[(1i64, 0i64, 1i64), (0, 1, 1)]) } else { *rng.pick(&TRIPLES) };
+                let t = rng.range_i64(1, 12);
+                let (sx, sy) = (*rng.pick(&[1i64, -1]), *rng.pick(&[1i64, -1]));
+                let c2 = (c1.0 + sx * pn * t, c1.1 + sy * qn * t);
+                let d = h * t;
+                let (r1, r2) = if rng.chance(1, 2) {
+                    // outside: r1 + r2 = d
+                    if d < 2 {
+                        (1, 1)
+                    } else {
+                        let r1 = rng.range_i64(1, d - 1);
+                        (r1, d - r1)
+                    }
+                } else {
+                    // inside: r1 - r2 = d
+                    let r2 = rng.range_i64(1, 50);
+                    (r2 + d, r2)
+                };
+                let k = *rng.pick(&[0i64, 0, 0, 1, -1]);
+                let r1 = (r1 + k).max(1);
+                let (r1, r2) = if rng.chance(1, 2) { (r1, r2) } else { (r2, r1) };
+                lattice_cc(&mut cx, c1, r1, c2, r2);
+            }
+            8 => {
+                cx.family = "lattice: line pair".into();
+                let p = pt(&mut rng);
+                let mut q = pt(&mut rng);
+                if q == p {
+                    q.1 += 1;
+                }
+                let u = pt(&mut rng);
+                let mut v = pt(&mut rng);
+                if rng.chance(1, 4) {
+                    // parallel (or identical) by construction
+                    let k = *rng.pick(&[1i64, -1, 2, -3]);
+                    v = (u.0 + k * (q.0 - p.0), u.1 + k * (q.1 - p.1));
+                }
+                if v == u {
+                    v.0 += 1;
+                }
+                let (d1, a1, b1, c1) = lattice_line(&mut rng, p, q);
+                let (d2, a2, b2, c2) = lattice_line(&mut rng, u, v);
+                let cross = a1 as i128 * b2 as i128 - a2 as i128 * b1 as i128;
+                if cross == 0 {
+                    judge_ll(&mut cx, d1, d2, Some(true), false);
+                } else {
+                    // exact intersection by Cramer: x = (b1 c2 - b2 c1)/cross, y = (a2 c1 - a1 c2)/cross
+                    let x = (b1 as i128 * c2 as i128 - b2 as i128 * c1 as i128) as f64 / cross as f64;
+                    let y = (a2 as i128 * c1 as i128 - a1 as i128 * c2 as i128) as f64 / cross as f64;
+                    let inside = x.abs() <= 1000.0 && y.abs() <= 1000.0;
+                    // lattice direction vectors of length <= 2*rr*sqrt2 give |sin| >= 1/(8 rr^2) >> 1e-9: never gray
+                    judge_ll(&mut cx, d1, d2, Some(false), inside);
+                }
+            }
+            _ => {
+                cx.family = "lattice: point classification".into();
+                let c = pt(&mut rng);
+                let r = rng.range_i64(1, rr);
+                // points at exact distance r exist along Pythagorean directions when r is a multiple of h
+                let (pn, qn, h) = *rng.pick(&TRIPLES);
+                let p = if rng.chance(1, 2) {
+                    let t = rng.range_i64(1, 20);
+                    let k = *rng.pick(&[0i64, 0, 1, -1]);
+                    let pp_ = (c.0 + pn * t + k, c.1 + qn * t);
+                    let rr2 = h * t;
+                    let d2 = (pp_.0 - c.0) as i128 * (pp_.0 - c.0) as i128 + (pp_.1 - c.1) as i128 * (pp_.1 - c.1) as i128;
+                    let num = d2 - rr2 as i128 * rr2 as i128;
+                    let m = if num == 0 { 0.0 } else { num as f64 / ((d2 as f64).sqrt() + rr2 as f64) };
+                    judge_position(&mut cx, f(c), rr2 as f64, f(pp_), m, num == 0);
+                    pp_
+                } else {
+                    let pp_ = pt(&mut rng);
+                    let d2 = (pp_.0 - c.0) as i128 * (pp_.0 - c.0) as i128 + (pp_.1 - c.1) as i128 * (pp_.1 - c.1) as i128;
+                    let num = d2 - r as i128 * r as i128;
+                    let m = if num == 0 { 0.0 } else { num as f64 / ((d2 as f64).sqrt() + r as f64) };
+                    judge_position(&mut cx, f(c), r as f64, f(pp_), m, num == 0);
+                    pp_
+                };
+                // contains: a lattice line and a lattice point; on the line when collinear
+                let u = pt(&mut rng);
+                let mut v = pt(&mut rng);
+                if v == u {
+                    v.0 += 1;
+                }
+                let (def, a, b, cc) = lattice_line(&mut rng, u, v);
+                let test = if rng.chance(1, 2) {
+                    let k = rng.range_i64(-3, 3);
+                    (u.0 + k * (v.0 - u.0), u.1 + k * (v.1 - u.1))
+                } else {
+                    p
+                };
+                let n = a as i128 * test.0 as i128 + b as i128 * test.1 as i128 + cc as i128;
+                let dist = n as f64 / ((a as i128 * a as i128 + b as i128 * b as i128) as f64).sqrt();
+                judge_contains(&mut cx, def, f(test), dist, n == 0);
+            }
+        }
+    });
+    if let Err(p) = res {
+        if p.in_lib {
+            cx.violation("panic", Json::obj().set("panic", p.msg.as_str()).set("at", format!("{}:{}", p.file, p.line)));
+        } else {
+            cx.rep.inconclusive(format!("harness panic at {}:{}: {}", p.file, p.line, p.msg));
+        }
+    }
+}
+
+fn lattice_cc(cx: &mut Cx, c1: (i64, i64), r1: i64, c2: (i64, i64), r2: i64) {
+    let d2 = (c1.0 - c2.0) as i128 * (c1.0 - c2.0) as i128 + (c1.1 - c2.1) as i128 * (c1.1 - c2.1) as i128;
+    let d = (d2 as f64).sqrt();
+    let s = (r1 + r2) as i128;
+    let df = (r1 - r2).abs() as i128;
+    let n_out = d2 - s * s;
+    let n_in = d2 - df * df;
+    let m_out = if n_out == 0 { 0.0 } else { n_out as f64 / (d + s as f64) };
+    let m_in = if n_in == 0 { 0.0 } else { n_in as f64 / (d + df as f64) };
+    let identical = d2 == 0 && r1 == r2;
+    if n_out == 0 || (n_in == 0 && !identical) {
+        cx.rep.inc("exact_tangencies");
+    }
+    judge_cc(cx, f(c1), r1 as f64, f(c2), r2 as f64, m_out, m_in, n_out == 0, n_in == 0 && !identical, identical, false);
+}
+
+// ------------------------------------------------------------------------------------------------
+// real-valued configurations
+
+fn rot(p: P2, ang: f64) -> P2 {
+    let (s, c) = ang.sin_cos();
+    P2 { x: p.x * c - p.y * s, y: p.x * s + p.y * c }
+}
+fn add(p: P2, q: P2) -> P2 {
+    P2 { x: p.x + q.x, y: p.y + q.y }
+}
+fn scale(p: P2, k: f64) -> P2 {
+    P2 { x: p.x * k, y: p.y * k }
+}
+
+const SWEEP: [f64; 25] = [
+    0.0, 1e-13, -1e-13, 1e-10 * 0.5, -1e-10 * 0.5, 1e-9, -1e-9, 2e-9, -3e-9, 5e-9, 2e-8, -2e-8, 1e-7, -1e-7, 1e-6, -1e-6, 1e-4, -1e-4, 1e-2, -1e-2, 1.0, -1.0, 3e-8, -5e-7, 7e-5,
+];
+
+fn run_real_case(case_seed: u64, rep: &mut Report, verbose: bool) {
+    let mut rng = Rng::new(case_seed);
+    let replay = vec!["--mode".into(), "real".into(), "--case".into(), format!("{}", case_seed)];
+    let mut cx = Cx { rep, replay, verbose, family: String::new() };
+    cx.rep.see("nontrivial", case_seed);
+    let res = catch(|| {
+        let ang = rng.f64_range(0.0, std::f64::consts::TAU);
+        // keep every coordinate of every reported point inside +-1e3
+        let tr = P2 { x: rng.f64_range(-300.0, 300.0), y: rng.f64_range(-300.0, 300.0) };
+        let place = |p: P2| add(rot(p, ang), tr);
+        match rng.below(8) {
+            0 => {
+                cx.family = "real: random circle and line".into();
+                let c = P2 { x: rng.f64_range(-500.0, 500.0), y: rng.f64_range(-500.0, 500.0) };
+                let r = 10f64.powf(rng.f64_range(-2.0, 2.6));
+                let p = P2 { x: rng.f64_range(-500.0, 500.0), y: rng.f64_range(-500.0, 500.0) };
+                let dir = rot(P2 { x: 1.0, y: 0.0 }, rng.f64_range(0.0, 6.3));
+                let q = add(p, scale(dir, rng.f64_range(1.0, 300.0)));
+                let ld = if rng.chance(1, 2) { LineDef::Points(p, q) } else { LineDef::Points(q, p) };
+                let m = ld.sdist(c).abs() - r;
+                judge_cl(&mut cx, c, r, ld, m, false);
+            }
+            1 | 2 => {
+                cx.family = "real: circle-line margin sweep around tangency (rotated, translated)".into();
+                let r = *rng.pick(&[0.01f64, 0.5, 1.0, 7.0, 100.0, 450.0]);
+                let m = *rng.pick(&SWEEP);
+                // canonical: circle at origin, line y = r + m, defined by two points >= 1 apart
+                let x1 = rng.f64_range(-200.0, 200.0);
+                let x2 = x1 + rng.f64_range(1.0, 200.0) * if rng.chance(1, 2) { 1.0 } else { -1.0 };
+                let side = if rng.chance(1, 2) { 1.0 } else { -1.0 };
+                let c = place(P2 { x: 0.0, y: 0.0 });
+                let p = place(P2 { x: x1, y: side * (r + m) });
+                let q = place(P2 { x: x2, y: side * (r + m) });
+                let ld = if rng.chance(1, 3) {
+                    // coefficients from the two points, at an arbitrary scale
+                    let k = *rng.pick(&[1.0f64, -2.5, 1e-3, 40.0]);
+                    let a = (p.y - q.y) * k;
+                    let b = (q.x - p.x) * k;
+                    let cc = -(a * p.x + b * p.y);
+                    LineDef::Coef(a, b, cc)
+                } else {
+                    LineDef::Points(p, q)
+                };
+                // the margin of the configuration actually built (rotation/translation round)
+                let actual = ld.sdist(c).abs() - r;
+                cx.rep.see_str("sweep_margins_cl", &format!("{:e}", m));
+                judge_cl(&mut cx, c, r, ld, actual, false);
+            }
+            3 | 4 | 5 => {
+                cx.family = "real: circle-circle margin sweep around outer / inner tangency (rotated, translated)".into();
+                let ratio = *rng.pick(&[1.0f64, 1.0, 3.0, 10.0, 100.0, 1e3, 1e5]);
+                let r1 = *rng.pick(&[1.0f64, 5.0, 100.0, 400.0]);
+                let r2 = r1 / ratio;
+                let m = *rng.pick(&SWEEP);
+                let outer = rng.chance(1, 2);
+                let d = if outer { r1 + r2 + m } else { (r1 - r2) + m };
+                if d < 0.0 || (!outer && ratio == 1.0) {
+                    // concentric / identical family instead
+                    let c = place(P2 { x: 0.0, y: 0.0 });
+                    if rng.chance(1, 2) {
+                        judge_cc(&mut cx, c, r1, c, r1, -2.0 * r1, 0.0, false, false, true, false);
+                    } else {
+                        let r2b = r1 * rng.f64_range(0.1, 0.9);
+                        judge_cc(&mut cx, c, r1, c, r2b, -(r1 + r2b), -(r1 - r2b), false, false, false, false);
+                    }
+                    return;
+                }
+                let c1 = place(P2 { x: 0.0, y: 0.0 });
+                let c2 = place(P2 { x: d, y: 0.0 });
+                let da = (c1.x - c2.x).hypot(c1.y - c2.y);
+                let m_out = da - (r1 + r2);
+                let m_in = da - (r1 - r2).abs();
+                let near_identical = da < 1e-7 && (r1 - r2).abs() < 1e-7;
+                cx.rep.see_str("sweep_margins_cc", &format!("{}:{:e}:{:e}", outer, m, ratio));
+                let (ca, ra, cb, rb) = if rng.chance(1, 2) { (c1, r1, c2, r2) } else { (c2, r2, c1, r1) };
+                judge_cc(&mut cx, ca, ra, cb, rb, m_out, m_in, false, false, false, near_identical);
+            }
+            6 => {
+                cx.family = "real: random line pair (angle >= 1e-3) and parallel pairs".into();
+                let p = P2 { x: rng.f64_range(-300.0, 300.0), y: rng.f64_range(-300.0, 300.0) };
+                let a1 = rng.f64_range(0.0, 3.1);
+                let u = rot(P2 { x: 1.0, y: 0.0 }, a1);
+                let l1 = LineDef::Points(p, add(p, scale(u, rng.f64_range(1.0, 100.0))));
+                if rng.chance(1, 4) {
+                    // exactly parallel: same direction vector, shifted
+                    let sh = P2 { x: rng.f64_range(-50.0, 50.0), y: rng.f64_range(-50.0, 50.0) };
+                    if let LineDef::Points(p1, p2) = l1 {
+                        let l2 = LineDef::Points(add(p1, sh), add(p2, sh));
+                        // the shift rounds: parallel up to ~1e-16, far inside the 1e-9 band
+                        judge_ll(&mut cx, l1, l2, Some(true), false);
+                    }
+                } else {
+                    let delta = 10f64.powf(rng.f64_range(-3.0, 0.19)) * if rng.chance(1, 2) { 1.0 } else { -1.0 };
+                    let v = rot(P2 { x: 1.0, y: 0.0 }, a1 + delta);
+                    // second line through a point near the first line so that the intersection stays in the box
+                    let on1 = add(p, scale(u, rng.f64_range(-100.0, 100.0)));
+                    let q = add(on1, scale(v, rng.f64_range(-100.0, 100.0)));
+                    let l2 = LineDef::Points(q, add(q, scale(v, rng.f64_range(1.0, 100.0))));
+                    let inside = on1.x.abs() <= 900.0 && on1.y.abs() <= 900.0;
+                    judge_ll(&mut cx, l1, l2, Some(false), inside);
+                }
+            }
+            _ => {
+                cx.family = "real: point classification sweeps".into();
+                let r = *rng.pick(&[0.01f64, 1.0, 30.0, 450.0]);
+                let m = *rng.pick(&SWEEP) * if rng.chance(1, 2) { r.max(1.0) } else { 1.0 };
+                let c = place(P2 { x: 0.0, y: 0.0 });
+                let th = rng.f64_range(0.0, 6.3);
+                let p = place(rot(P2 { x: (r + m).max(0.0), y: 0.0 }, th));
+                let actual = (p.x - c.x).hypot(p.y - c.y) - r;
+                judge_position(&mut cx, c, r, p, actual, false);
+                // contains
+                let u = place(P2 { x: -10.0, y: 0.0 });
+                let v = place(P2 { x: 35.0, y: 0.0 });
+                let ld = LineDef::Points(u, v);
+                let off = *rng.pick(&SWEEP);
+                let t = place(P2 { x: rng.f64_range(-100.0, 100.0), y: off });
+                let dist = ld.sdist(t);
+                judge_contains(&mut cx, ld, t, dist, false);
+            }
+        }
+        let _ = LineDef::dir;
+    });
+    if let Err(p) = res {
+        if p.in_lib {
+            cx.violation("panic", Json::obj().set("panic", p.msg.as_str()).set("at", format!("{}:{}", p.file, p.line)));
+        } else {
+            cx.rep.inconclusive(format!("harness panic at {}:{}: {}", p.file, p.line, p.msg));
+        }
+    }
+}
+
+fn main() {
+    let eng = Engine::start("geomon");
+    let a = &eng.args;
+    let mode = a.str("mode", "lattice");
+    let thorough = a.thorough();
+    let seed = a.seed();
+    let mut report = Report::new();
+    report.extra("mode", mode.as_str());
+    type Runner = fn(u64, &mut Report, bool);
+    let (runner, default_cases, tag): (Runner, u64, u64) = match mode.as_str() {
+        "lattice" => (run_lattice_case, if thorough { 40_000_000 } else { 1_500_000 }, 1),
+        "real" => (run_real_case, if thorough { 40_000_000 } else { 1_500_000 }, 2),
+        m => panic!("unknown mode {}", m),
+    };
+    if let Some(c) = a.opt("case") {
+        let mut rep = Report::new();
+        runner(c.parse().unwrap(), &mut rep, true);
+        report.merge(rep);
+        eng.finish(report);
+    }
+    let total = a.u64("cases", default_cases);
+    let q = WorkQueue::new(total);
+    let rep = common::run_sharded(a.threads(), |_s, rep| {
+        rep.sample_cap = 0;
+        while let Some((lo, hi)) = q.take_block(1024) {
+            for i in lo..hi {
+                runner(mix(&[seed, tag, i]), rep, false);
+            }
+        }
+    });
+    report.merge(rep);
+    report.sample(Json::obj().set("example", "circle (10,10) r=5 and the line y=15: exactly tangent, touch point must be (10,15)"));
+    report.extra("exhaustive", false);
+    report.extra("guard_band", "kind asserted for margin exactly 0, |margin| <= 1e-10 or |margin| >= 1e-8; in between only point residuals (<= 1e-7) are checked");
+    eng.finish(report);
+}
